@@ -132,10 +132,12 @@ def install():
 
 
 def fire(clause, what, **native):
-    k = f'{clause}:{_CTX.get("template")}:{_CTX.get("input")}'
-    if sum(1 for v in _VIOL if v['key'].startswith(clause + ':')) >= MAXV or any(v['key'] == k for v in _VIOL):
+    """one key per (clause, template, input): the automorphism-filter variant and the twin without ring fixing only add to the text"""
+    base = clause.split('/')[0]
+    k = f'{base}:{_CTX.get("template")}:{_CTX.get("input")}'
+    if sum(1 for v in _VIOL if v['key'].startswith(base + ':')) >= MAXV or any(v['key'] == k for v in _VIOL):
         return
-    _VIOL.append({'key': k, 'what': f'{clause}: template {_CTX.get("template")} on {_CTX.get("input")}: {what}',
+    _VIOL.append({'key': k, 'what': f'{clause}: template {_CTX.get("template")}{_CTX.get("variant", "")} on {_CTX.get("input")}: {what}',
                   'witness': {'job': _CTX.get('job'), 'clause': clause}, 'native': native})
 
 
@@ -188,6 +190,7 @@ def post_condition(rx, S, mu0, mu1, N, exact, mode):
         fire('deleted' + tag, f'match {mu0}: removed atoms {sorted(set(sa_) - set(na_))}, the template names {sorted(del0)} and the fragments '
              f'without a path to a remaining matched atom make {sorted(D)}; unexpected atoms {sorted(set(na_) - expected - set(sa_))}',
              removed=sorted(set(sa_) - set(na_)), expected=sorted(D), mapping=mu0)
+        D = set(sa_) - set(na_)  # reported once; the frame below is judged against what was actually removed
     if D - del0:
         _STAT['fragment-deleted'] += 1
     patched = set(named_old) | set(new_nums)
@@ -264,7 +267,9 @@ def post_condition(rx, S, mu0, mu1, N, exact, mode):
             continue
         na = na_[v]
         if set(sb_[v]) != set(nb_[v]):
-            if na.stereo is not None:
+            if n is None:
+                _STAT['unnamed-centre-lost-a-neighbour'] += 1  # property text: atoms not named keep their stereo; nothing asserted
+            elif na.stereo is not None:
                 fire('stereo-stale' + tag, f'centre {v} changed its neighbours {sorted(sb_[v])} -> {sorted(nb_[v])} and has no label in the '
                      f'replacement but still carries the label {na.stereo}', atom=v, mapping=mu0)
             else:
@@ -379,8 +384,8 @@ def exact_same(p, m):
 def run_transformer(job, m, text, out):
     """all Transformer-level contracts for one (template, molecule); wrapper contracts fire through _VIOL"""
     T, spec = transformer_of(job)
-    name = spec['name'] + ('' if job.get('af', True) else '/no-automorphism-filter')
-    _CTX.update(template=name, input=text, job={**job, 'input': text})
+    name = spec['name']
+    _CTX.update(template=name, input=text, job={**job, 'input': text}, variant='' if job.get('af', True) else ' (automorphism_filter=False)')
     del _LOG[:]
     _BUDGET[0] = K_CHECK
     try:
@@ -418,6 +423,27 @@ def prodkey(r):
     return tuple(sorted(str(p) for p in r.products))
 
 
+def prodkey_flat(r):
+    return tuple(sorted(format(p, '!s') for p in r.products))
+
+
+def same_sets(base, got):
+    """compare two lists of reactions as sets of product tuples.  Returns (equal, only_in_got, only_in_base).
+    Canonical strings are C01's business and have two documented gaps (DESIGN section 2 C01: stereo labels on centres with constitutionally
+    equivalent substituents; symmetric cages).  When the full strings differ only for products inside a gap (oracles.o01_gaps, the fixed
+    predicates of C01) the comparison falls back to stereo-free strings for those and the case is counted as gap hit."""
+    from oracles.o01_gaps import gaps
+    a, b = {prodkey(x): x for x in got}, {prodkey(x): x for x in base}
+    if set(a) == set(b):
+        return True, [], []
+    da, db = [a[k] for k in set(a) - set(b)], [b[k] for k in set(b) - set(a)]
+    if all(any(any(gaps(p)) for p in x.products) for x in da + db) and \
+            {prodkey_flat(x) for x in got} == {prodkey_flat(x) for x in base}:
+        _STAT['c01-gap-hits'] += 1
+        return True, [], []
+    return False, sorted(set(a) - set(b)), sorted(set(b) - set(a))
+
+
 def call_reactor(R, mols):
     rs = list(itertools.islice(R(*mols), CAP_R))
     return rs, len(rs) >= CAP_R
@@ -427,7 +453,7 @@ def run_reactor(job, texts, out):
     """Reactor-level relational contracts for one reactant tuple"""
     R = reactor_of(job)
     name = job['name'] + (f'[{job["idx"]}]' if 'idx' in job else '')
-    _CTX.update(template=name, input=' + '.join(texts), job={**job, 'inputs': list(texts)})
+    _CTX.update(template=name, input=' + '.join(texts), job={**job, 'inputs': list(texts)}, variant='')
     r = domains.rnd('b16r' + name + '|'.join(texts))
     mols = [domains.parse(t) for t in texts]
     valid = not any(m.check_valence() for m in mols)
@@ -478,10 +504,10 @@ def run_reactor(job, texts, out):
             fire('raises', f'reactor raised {type(e).__name__}: {e} on variant {vn}', error=repr(e))
             continue
         out[0] += 1
-        if not cp and set(prodkey(x) for x in got) != set(bset):
-            a, b = set(prodkey(x) for x in got), set(bset)
-            fire('reactor-' + vn, f'product set changes with reactant {vn}: only in variant {sorted(a - b)[:2]}, only in base {sorted(b - a)[:2]}',
-                 variant=sorted(a)[:6], base=sorted(b)[:6])
+        if not cp:
+            ok, oa, ob = same_sets(base, got)
+            if not ok:
+                fire('reactor-' + vn, f'product set changes with reactant {vn}: only in variant {oa[:2]}, only in base {ob[:2]}', variant=oa[:6], base=ob[:6])
     # spectator
     sp = domains.parse(SPECTATOR)
     if not any(p <= sp for p in R._patterns):
@@ -519,7 +545,7 @@ def run_reactor(job, texts, out):
 
 def overlap_contract(texts, out):
     from chython.reactor.reactor import fix_mapping_overlap
-    _CTX.update(template='fix_mapping_overlap', input=' + '.join(texts), job={'kind': 'overlap', 'inputs': list(texts)})
+    _CTX.update(template='fix_mapping_overlap', input=' + '.join(texts), job={'kind': 'overlap', 'inputs': list(texts)}, variant='')
     ms = [domains.parse(t) for t in texts]
     res = fix_mapping_overlap(ms)
     out[0] += 1
@@ -567,7 +593,7 @@ def _mol_item(i):
             if run_transformer({'kind': 'deprot', 'group': g, 'rule': j}, m, text, out):
                 hit_groups.append(g)
     for g in dict.fromkeys(hit_groups):  # exposed functions: fixpoint
-        _CTX.update(template=f'deprotection.{g}', input=text, job={'kind': 'deprot-fn', 'group': g, 'input': text})
+        _CTX.update(template=f'deprotection.{g}', input=text, job={'kind': 'deprot-fn', 'group': g, 'input': text}, variant='')
         _BUDGET[0] = K_CHECK
         try:
             res = getattr(deprotection, g)(m)
@@ -594,7 +620,7 @@ def _pair_item(i):
     n = run_reactor(job, texts, out)
     if job['kind'] == 'rbuiltin' and n:
         from chython.reactor import reactions
-        _CTX.update(template=f'reactions.{job["name"]}', input=' + '.join(texts), job={**job, 'inputs': list(texts), 'prepared': True})
+        _CTX.update(template=f'reactions.{job["name"]}', input=' + '.join(texts), job={**job, 'inputs': list(texts), 'prepared': True}, variant='')
         _BUDGET[0] = K_CHECK
         try:
             ms = [domains.parse(t) for t in texts]
@@ -650,13 +676,15 @@ def _gd_item(i):
             if got != exp:
                 nbad += 1
                 if not viol:
-                    viol.append({'key': f'get_deleted:{tag}:edges={sorted(tuple(sorted((a + 1, b + 1))) for a, b in g.edges)}:labels={list(labs)}:adjacency={vn}',
+                    viol.append({'key': f'get_deleted:{tag}:N-MISMATCHES:edges={sorted(tuple(sorted((a + 1, b + 1))) for a, b in g.edges)}:labels={list(labs)}:adjacency={vn}',
                                  'what': f'_get_deleted on graph {tag} edges {sorted((a + 1, b + 1) for a, b in g.edges)}, deleted '
                                          f'{[v for v in nodes if lab[v] == 1]}, remaining matched {[v for v in nodes if lab[v] == 2]}, adjacency order '
                                          f'{vn}: library removes {sorted(got)}, the fragments without a path to a remaining matched atom give {sorted(exp or [])}',
                                  'witness': {'job': {'kind': 'get_deleted', 'adjacency': [[a, list(b)] for a, b in adj.items()], 'labels': lab}, 'clause': 'get_deleted'},
                                  'native': {'library': sorted(got), 'oracle': sorted(exp or [])}})
-    return cases, [f'gd:{tag}'] if g.number_of_edges() else [], [], viol, {'get_deleted-mismatches': nbad}
+    for v in viol:  # the key carries the number of failing (labelling, order) cases of this graph: any change shows up as a new key
+        v['key'] = v['key'].replace('N-MISMATCHES', f'failing={nbad}/{cases}')
+    return cases, [f'gd:{tag}'] if g.number_of_edges() else [], [], viol, {'get_deleted-mismatches': nbad, 'get_deleted-graphs-with-mismatch': len(viol)}
 
 
 # ---------------------------------------------------------------------------------------------------------------- driver
